@@ -32,7 +32,9 @@ RULE = ('one run = one TBRMatchedMarkets object over a seeded panel (3-7 '
         'simulated callers whose queries, atomic and in-flight listings, '
         'searches and retrievals are interleaved by the seeded schedule; '
         'fault kinds (separate batch): rng_jump, reject, abandon, interrupt '
-        'at a seeded line event inside a call, mutate_snapshot. Every answer '
+        'at a seeded line event inside a call, mutate_snapshot (returned '
+        'result list), mutate_returned (sets inside a query answer), sibling '
+        '(an unrelated object with other data used in between). Every answer '
         'is compared bit-exactly with a freshly built object; the caller\'s '
         'frame, eligibility table and parameter object are compared with '
         'pristine copies after every step. Non-trivial: >= 2 state-changing '
@@ -53,6 +55,8 @@ ROW_TYPES = {'ctx': (1, 1, 1), 'ct': (1, 1, 0), 'c': (1, 0, 0), 't': (0, 1, 0),
              'x': (0, 0, 1), 'cx': (1, 0, 1), 'tx': (0, 1, 1)}
 MODULES = ('geoeligibility', 'tbrmatchedmarkets', 'tbrmmdata',
            'tbrmmdesignparameters', 'heapdict')
+FAULT_KINDS = ('rng_jump', 'reject', 'abandon', 'interrupt', 'mutate_snapshot',
+               'mutate_returned', 'sibling')
 INTERRUPTIBLE = ('q', 'dwc', 'list_t', 'list_c', 'step', 'exhaustive',
                  'greedy', 'results')
 
@@ -181,19 +185,22 @@ def _gen_ops(rng, tier, profile, n_geos):
     n_steps = rng.randrange(3, 9)
     w = {'q': 6, 'exhaustive': 12, 'greedy': 14, 'results': 16, 'dwc': 2}
     enabled = set()
+    if rng.random() < 0.5:
+      # the caller vandalises the list it was handed (like read_mutate on the
+      # container): later retrievals must still be capped and best-first
+      w['mutate_snapshot'] = 10
+      enabled.add('mutate_snapshot')
   else:
     n_steps = rng.randrange(6, 17 if tier == 'quick' else 31)
     w = {'q': 30, 'dwc': 8, 'list_t': 6, 'list_c': 6, 'open': 8, 'step': 14,
          'close': 3, 'exhaustive': 5, 'greedy': 8, 'results': 14}
     enabled = set()
     if profile == 'faults':
-      for f in ('rng_jump', 'reject', 'abandon', 'interrupt',
-                'mutate_snapshot'):
-        if rng.random() < 0.55:
+      for f in FAULT_KINDS:
+        if rng.random() < 0.5:
           enabled.add(f)
       if not enabled:
-        enabled.add(rng.choice(('rng_jump', 'reject', 'abandon', 'interrupt',
-                                'mutate_snapshot')))
+        enabled.add(rng.choice(FAULT_KINDS))
       if 'rng_jump' in enabled:
         w['rng_jump'] = 6
       if 'reject' in enabled:
@@ -202,6 +209,10 @@ def _gen_ops(rng, tier, profile, n_geos):
         w['abandon'] = 4
       if 'mutate_snapshot' in enabled:
         w['mutate_snapshot'] = 7
+      if 'mutate_returned' in enabled:
+        w['mutate_returned'] = 8
+      if 'sibling' in enabled:
+        w['sibling'] = 7
   p_interrupt = rng.choice((0.1, 0.2, 0.35)) if 'interrupt' in enabled else 0
   max_searches = 3 if profile != 'c14' else 4
   ops = []
@@ -209,23 +220,34 @@ def _gen_ops(rng, tier, profile, n_geos):
   next_lid = 0
   n_search = 0
   have_list = False
+  have_answer = False
   for _ in range(n_steps):
     kinds = [k for k in w
              if not (k in ('step', 'close', 'abandon') and not open_lids)
              and not (k == 'open' and len(open_lids) >= 3)
              and not (k == 'mutate_snapshot' and not have_list)
+             and not (k == 'mutate_returned' and not have_answer)
              and not (k in ('exhaustive', 'greedy') and n_search >= max_searches)]
     kind = rng.choices(kinds, weights=[w[k] for k in kinds])[0]
     op = {'op': kind, 'c': rng.randrange(n_clients)}
     if kind == 'q':
       op['name'] = rng.choice(QUERIES)
+      have_answer = True
+    elif kind == 'mutate_returned':
+      op['how'] = rng.choice(('clear', 'add', 'discard_one'))
+    elif kind == 'sibling':
+      op['variant'] = rng.randrange(2)
+      op['what'] = rng.choice(('greedy', 'greedy', 'exhaustive', 'query',
+                               'results'))
     elif kind == 'dwc':
       op['t'] = _picks(rng, rng.choice((1, 1, 2, 3)))
       op['ctl'] = _picks(rng, rng.choice((1, 1, 2, 3)))
     elif kind == 'list_t':
       op['n'] = rng.choice((1, 1, 2, 2, 3, n_geos))
+      have_answer = True
     elif kind == 'list_c':
       op['t'] = _picks(rng, rng.choice((1, 1, 2)))
+      have_answer = True
     elif kind == 'open':
       op['lid'] = next_lid
       open_lids.append(next_lid)
@@ -332,6 +354,22 @@ class Env:
   def frame(self):
     return self._df0.copy(deep=True)
 
+  def sibling_frame(self, variant):
+    """Different data of the same shape: an unrelated object's input."""
+    df = self._df0.copy(deep=True)
+    geos = sorted(df['geo'].unique(), key=str)
+    mapping = dict(zip(geos, geos[1:] + geos[:1]))   # rotate the geo labels
+    df['geo'] = df['geo'].map(mapping)
+    df['response'] = df['response'] * (1.37 + variant) + 0.5 * variant
+    return df
+
+  def build_sibling(self, variant):
+    geoeligibility, tbrmatchedmarkets, tbrmmdata = self.mods[:3]
+    edf = self.elig_frame()
+    elig = None if edf is None else geoeligibility.GeoEligibility(edf)
+    data = tbrmmdata.TBRMMData(self.sibling_frame(variant), 'response', elig)
+    return tbrmatchedmarkets.TBRMatchedMarkets(data, self.parameters())
+
   def elig_frame(self):
     return None if self._elig0 is None else self._elig0.copy(deep=True)
 
@@ -383,9 +421,9 @@ def _call(mm, op, res):
     mm.geo_assignments  # pylint: disable=pointless-statement
     return mm.design_within_constraints(set(res['t']), set(res['ctl']))
   if kind == 'list_t':
-    return [set(g) for g in mm.treatment_group_generator(res['n'])]
+    return list(mm.treatment_group_generator(res['n']))
   if kind == 'list_c':
-    return [set(g) for g in mm.control_group_generator(set(res['t']))]
+    return list(mm.control_group_generator(set(res['t'])))
   if kind == 'exhaustive':
     return mm.exhaustive_search()
   if kind == 'greedy':
@@ -574,6 +612,8 @@ def execute(desc):
                                 # retrieval and the next completed search
   listings = {}                 # lid -> dict(gen, key, res, pos)
   last_list = None
+  last_answer = None            # raw answer of the last query / atomic listing
+  siblings = {}
   n_state_changes = 0
   compared_after_change = 0
   flags = {'rng_jumped': False, 'interrupted': False, 'par_touched': False}
@@ -594,6 +634,10 @@ def execute(desc):
       return core.violation('C14', 'S1', step, kind,
                             '%d designs returned, n_designs=%d' % (
                                 len(raw), n_designs))
+    if any(not hasattr(d, 'score') for d in raw):
+      return core.violation('C14', 'S0', step, kind,
+                            'the returned list holds something that is not a '
+                            'design', got=[type(d).__name__ for d in raw])
     keys = [_design_sort_key(d) for d in raw]
     if any(k is None for k in keys):
       stats['skipped']['nan_score_in_result'] = (
@@ -653,6 +697,34 @@ def execute(desc):
             last_list.append(None)
           fault('mutate_snapshot')
           state_change = True
+      elif kind == 'mutate_returned':
+        # the caller treats what a query or listing handed it as its own
+        if last_answer is not None:
+          _vandalise(last_answer, op['how'])
+          fault('mutate_returned')
+          state_change = True
+          last_answer = None
+      elif kind == 'sibling':
+        # an unrelated object (own data, own parameters) is used in the same
+        # process between two calls on the object under test
+        try:
+          sib = siblings.get(op['variant'])
+          if sib is None:
+            sib = siblings[op['variant']] = env.build_sibling(op['variant'])
+          what = op['what']
+          if what == 'greedy':
+            sib.greedy_search()
+          elif what == 'exhaustive':
+            sib.exhaustive_search()
+          elif what == 'results':
+            sib.search_results()
+          else:
+            sib.geo_assignments  # pylint: disable=pointless-statement
+            sib.count_max_designs()
+        except Exception:  # pylint: disable=broad-except
+          pass
+        fault('sibling_object_used')
+        state_change = True
       elif kind in ('close', 'abandon'):
         lst = listings.pop(op['lid'], None)
         if lst is not None:
@@ -782,12 +854,9 @@ def execute(desc):
           if akind in ('exhaustive', 'greedy', 'results'):
             results_trusted = False
           ev.append(['interrupted', list(val)])
-          # the caller's parameter object: re-baseline, count the leak
-          now = dataclasses.asdict(par)
-          if now != par_base and focus == 'C10':
-            probe('param_leak_after_interrupt')
-            flags['par_touched'] = True
-            par_base = now
+          # No relaxation for the caller-owned objects: "a search leaves the
+          # caller's parameter object and input frame unmodified" has no
+          # exemption for a search that ends in an exception (I2/I3 below).
         else:
           if intr:
             probe('interrupt_missed')
@@ -808,6 +877,8 @@ def execute(desc):
               probe('empty_result_list')
             if akind == 'greedy' and t_sorted and isinstance(geo, list):
               pass
+          if akind in ('q', 'list_t', 'list_c') and okind == 'ok':
+            last_answer = val
           if akind == 'results' and okind == 'ok':
             probe('retrieval')
             if isinstance(val, list):
@@ -885,6 +956,29 @@ def execute(desc):
   else:
     nontrivial = n_state_changes >= 2 and compared_after_change >= 1
   return finish(viol, events, absig, nontrivial)
+
+
+def _vandalise(answer, how):
+  """The caller modifies the sets inside an answer it was handed."""
+  sets = []
+  if isinstance(answer, set):
+    sets.append(answer)
+  elif isinstance(answer, list):
+    sets.extend(g for g in answer if isinstance(g, set))
+  elif dataclasses.is_dataclass(answer):
+    for f in dataclasses.fields(answer):
+      v = getattr(answer, f.name, None)
+      if isinstance(v, set):
+        sets.append(v)
+  for st in sets:
+    if how == 'clear':
+      st.clear()
+    elif how == 'add':
+      st.add('zz' if any(isinstance(e, str) for e in st) else 977)
+    elif how == 'discard_one' and st:
+      st.discard(min(st, key=str))
+  if isinstance(answer, list) and how == 'clear':
+    del answer[:]
 
 
 def _take(one):
